@@ -86,6 +86,15 @@ def generate():
     finally:
         if os.path.exists(exe6):
             os.unlink(exe6)
+    # comparison operators on every ordered pair of 18 values
+    exe7 = os.path.join(CACHE, "dump_cmp.%d" % os.getpid())
+    try:
+        subprocess.run(["g++", "-std=gnu++17", "-O0", "-I" + REPO + "/src", os.path.join(ROOT, "harness", "dump_cmp.cpp"), "-o", exe7],
+                       check=True, stdout=subprocess.PIPE, stderr=subprocess.PIPE, text=True)
+        cmp_rows = run([exe7]).split()[1:]
+    finally:
+        if os.path.exists(exe7):
+            os.unlink(exe7)
     vals = {}
     for line in dump.splitlines():
         k, _, v = line.partition(" ")
@@ -148,6 +157,9 @@ def generate():
     L.append("/-- deserializeJson of number-like literals: (text, code, stored as an integer, as<uint64>, as<int64>, bits of as<float>, bits of as<double>) -/")
     L.append("def parse_rows : List (List Nat × Nat × Nat × Nat × Int × Nat × Nat) := [%s]" % ", ".join(
         "(%s, %s, %s, %s, %s, %s, %s)" % ((hexl(e.split(":")[0]),) + tuple(e.split(":")[1:7])) for e in numrows["parse_rows"]))
+    L.append("/-- a ? b for every ordered pair of the 18 values of harness/dump_cmp.cpp: (index of a, index of b, [==, !=, <, <=, >, >=]) -/")
+    L.append("def cmp_rows : List (Nat × Nat × List Bool) := [%s]" % ", ".join(
+        "(%s, %s, [%s])" % (e.split(":")[0], e.split(":")[1], ", ".join("true" if c == "1" else "false" for c in e.split(":")[2])) for e in cmp_rows))
     for k in sorted(jsonfirst):
         L.append("/-- deserializeJson on a first byte and a fixed tail (alone: nothing; elem: `1]`; key: `\":1}x`), nesting limit 10; plain = default build, ext = comments, NaN and Infinity enabled: (first byte, code, bytes consumed, serializeJson of the document left) -/")
         L.append("def %s : List (Nat × Nat × Nat × List Nat) := [%s]" % (k, ", ".join(mprow(e) for e in jsonfirst[k])))
